@@ -555,6 +555,13 @@ func c08Case(c *core.Ctx, i int64, toks []lang.Tok, orig *lang.Program, r *rand.
 		if derr == nil && pan == "" {
 			var lg3, out3 bytes.Buffer
 			lp, lerr := bcl.LoadProg(bytes.NewReader(d), "in", bcl.OptLogger(&lg3), bcl.OptOutput(&out3))
+			if i%4 == 2 {
+				// load into a Prog that already holds another program with a longer line table
+				lp, lerr = bcl.Parse([]byte(strings.Repeat("\n", 50+len(src)/8)+"print 1\n"), "earlier", bcl.OptLogger(&lg3), bcl.OptOutput(&out3))
+				if lerr == nil {
+					lerr = lp.Load(bytes.NewReader(d))
+				}
+			}
 			if lerr == nil {
 				_, _, xerr := bcl.Execute(lp)
 				c.Eval(1)
